@@ -129,6 +129,8 @@ type lfWorld struct {
 	viols  []vsched.Violation
 	seq    int
 	steps  []string
+	// lastEnabled: labels of the events offered at the current decision (diagnostics)
+	lastEnabled []string
 	// gatePolicy decides whether a hook invocation blocks on a gate.
 	gatePolicy func(a *lfActor, hook, msg string) bool
 	// postExitHook runs at the end of PostStop (before the exit is logged) on the stopping goroutine.
@@ -757,6 +759,10 @@ func (w *lfWorld) loop(c *vsched.Chooser, maxSteps int, extra func() []lfEvent, 
 		for i, e := range evs {
 			costs[i] = e.cost
 		}
+		w.lastEnabled = w.lastEnabled[:0]
+		for _, e := range evs {
+			w.lastEnabled = append(w.lastEnabled, e.label)
+		}
 		i := c.Choose("event", len(evs), costs, func(i int) string { return evs[i].label })
 		if c.Truncated {
 			break
@@ -782,6 +788,7 @@ func lfGuard(w *lfWorld, out *vsched.Outcome, body func()) {
 	defer func() {
 		if p := recover(); p != nil {
 			if d, ok := p.(vsched.Divergence); ok {
+				fmt.Fprintf(os.Stderr, "LF-DIVERGENCE %v\n  steps so far: %v\n  enabled now: %v\n  log: %s\n", d, w.steps, w.lastEnabled, lfLogString(w.snapshot()))
 				defer panic(d)
 			}
 			buf := make([]byte, 16<<10)
